@@ -24,7 +24,7 @@ def run(ctx):
     # per-node trace validation: every evaluated node of random programs judged locally (evaluation order, selected branch only,
     # operator cells, member access, calls) given its children's observed results
     nd = ctx.record("nodes-random", "nodes", ["-n", 6000 if ctx.thorough else 600, "-seed", ctx.seed * 100 + 56])
-    ctx.validate("nodes-random-validate", "trace/Trace_Nodes.tla", "trace/Trace_Nodes.cfg", nd, "nodes", shards=1)
+    ctx.validate("nodes-random-validate", "trace/Trace_Nodes.tla", "trace/Trace_Nodes.cfg", nd, "nodes", shards=14 if ctx.thorough else 2, cut="start")
     ctx.selftest_binding("nodes-random", "trace/Trace_Nodes.tla", "trace/Trace_Nodes.cfg", nd, "nodes", corrupt_nodes)
     return ctx.finish(
         rule="every (condition expression, branch expressions, operator) combination of the family, evaluated by the real "
